@@ -488,7 +488,7 @@ def rule_t2(ctx):
 
 def rule_h2(ctx):
     """Pairwise child comparison needs equal child counts: zip() silently stops at the shorter list."""
-    for meth in ("structurally_equal", "__eq__"):
+    for meth in ("structurally_equal", "__eq__", "is_prefix"):
         f = ctx.repo.func(DT, f"DerivationTree.{meth}", "C16.H2")
         c = f"{DT}:DerivationTree.{meth}"
         zips = [x for x in ast.walk(f) if isinstance(x, ast.Call) and call_name(x) == "zip" and len(x.args) == 2 and all("children" in src(a) for a in x.args)]
@@ -500,6 +500,12 @@ def rule_h2(ctx):
                       "(structurally) equal although the structural hashes differ", "dominated by a length comparison")
         if not zips:
             idx_loops = [x for x in ast.walk(f) if isinstance(x, ast.GeneratorExp) and "range(len(self.children))" in src(x)]
+            if meth == "is_prefix":
+                gens = [x for x in ast.walk(f) if isinstance(x, ast.GeneratorExp) and "enumerate(self.children)" in src(x)]
+                if not gens:
+                    raise Unrecognised("C16.H2", c, "child comparison of is_prefix not found")
+                ok = has_fact(facts(gens[0]), "len(self.children) != len(other.children)", False)
+                ctx.check(ok, "H2-child-count", c, "children compared index-wise only after their numbers were compared", site(gens[0]), "missing length comparison before the index-wise comparison", "dominated by a length comparison")
             if meth == "structurally_equal":
                 if not idx_loops:
                     raise Unrecognised("C16.H2", c, "child comparison not found")
